@@ -68,6 +68,11 @@ both_families! {
 				Ok(a) => judge("predecessor in the re-used buffer", a, b, &bexp),
 				Err(_) => Ok(()),
 			})?;
+			// ... and IMMEDIATELY afterwards (nothing else read in between) the authority itself, at that address
+			gen::with_arena(text, |s| match Authority::new(s) {
+				Ok(a) => judge("right after another authority of the same length in the same buffer", a, text, exp).map_err(|f| Failure::new(format!("reused-buffer:{}", f.sig), format!("(previous content of the buffer: {:?}) {}", b, f.msg))),
+				Err(_) => Err(Failure::new("reused-buffer:rejects", format!("Authority::new rejects {:?} when it lives in a re-used buffer", text))),
+			})?;
 		}
 		match case.route {
 			Route::Standalone => {
@@ -222,6 +227,30 @@ impl Prop for C03 {
 				}
 			}
 		}
+		// the IPvFuture family: version of every length 1..=64 (letters only / digits only / mixed) x address parts
+		// with and without ':' x user info x port
+		{
+			let mut k = 0usize;
+			for n in 1..=64usize {
+				for version in ["A".repeat(n), "9".repeat(n), "aB3".repeat(n)[..n].to_string()] {
+					for addr in ["x", "x:y", ":", "a:b:c", "~:!$&'()*+,;=", "1.2.3.4", "zzzzzzzzzzzzzzzzzzzzzzzzzzzzzzzzzzzzzzzzzzzzzzzzzzzzzzzzzz:q"] {
+						for ui in [None, Some("u"), Some("u:12345")] {
+							for port in [None, Some(""), Some("80")] {
+								k += 1;
+								if k % nshards != shard {
+									continue;
+								}
+								let a = recompose_authority(&AuthParts { userinfo: ui.map(|s| s.to_string()), host: format!("[v{version}.{addr}]"), port: port.map(|s| s.to_string()) });
+								let route = [Route::Standalone, Route::InFull, Route::InReference][k % 3];
+								if !f(Case { fam: if k % 2 == 0 { Fam::Uri } else { Fam::Iri }, authority: a, route, before: None }, true) {
+									return vec![];
+								}
+							}
+						}
+					}
+				}
+			}
+		}
 		// equal-length authorities (>= 48 bytes) that differ only in WHERE their delimiters are, every ordered
 		// pair read one after the other from the same buffer
 		let mut pairs = 0usize;
@@ -255,7 +284,7 @@ impl Prop for C03 {
 				}
 			}
 		}
-		vec!["full product userinfo pool x host pool x port pool, both families, three routes", "every ordered pair of equal-length authorities (48, 49, 64, 100, 300 bytes; 6 user infos x 4 ports x 3 host shapes) read one after the other from the same buffer"]
+		vec!["IPvFuture hosts: version of every length 1..=64 (3 alphabets) x 7 address parts x 3 user infos x 3 ports", "full product userinfo pool x host pool x port pool, both families, three routes", "every ordered pair of equal-length authorities (48, 49, 64, 100, 300 bytes; 6 user infos x 4 ports x 3 host shapes) read one after the other from the same buffer"]
 	}
 
 	fn floors(_tier: Tier) -> Vec<(&'static str, u64)> {
